@@ -194,6 +194,17 @@ static int ro_op(ro_ctx_t *c, size_t i, char *tok)
     if (c->guard == 2) { printf("_ "); return 0; }
     if (IS("snap")) { ro_snap(c); return 0; }
     if (IS("fin")) { ro_fin(c); return 0; }
+    if (IS("dir")) {
+        /* flatcc_builder_get_direct_buffer (default emitter) / flatcc_emitter_get_direct_buffer: D:null or D:<size>:<ok|diff> (bytes vs copy_buffer) */
+        size_t dn = 12345; void *dp = c->emitter_mode ? flatcc_emitter_get_direct_buffer(&c->E, &dn) : flatcc_builder_get_direct_buffer(B, &dn);
+        if (!dp) printf(dn == 0 ? "D:null " : "D:null:size%zu ", dn);
+        else {
+            flatcc_emitter_t *E = c->emitter_mode ? &c->E : &B->default_emit_context; size_t cn = flatcc_emitter_get_buffer_size(E);
+            uint8_t *cp = (uint8_t *)malloc(cn ? cn : 1); int same = cn == dn && flatcc_emitter_copy_buffer(E, cp, cn) && !memcmp(cp, dp, dn);
+            printf("D:%zu:%s ", dn, same ? "ok" : "diff"); free(cp);
+        }
+        return 0;
+    }
     if (IS("evs")) { size_t k; if (!c->nrecs) printf("-"); for (k = 0; k < c->nrecs; ++k) printf("%s%lld:%zu", k ? "," : "", c->recs[k].off, c->recs[k].len); printf(" "); return 0; }
     if (IS("evb")) { /* emit log with the nest id of the buffer under construction and the bytes: off:nest:hex,... */
         size_t k; if (!c->nrecs) printf("-");
